@@ -564,7 +564,8 @@ Proof.
     rewrite <- Nat.add_assoc. destruct (u2 + g)%nat as [|n] eqn:En.
     + rewrite Nat.add_0_r, H0.
       assert (u2 = 0%nat) by lia. assert (g = 0%nat) by lia. subst u2 g.
-      specialize (Hg 0%nat). rewrite <- app_assoc in Hg. cbn [app Nat.add] in Hg. Show. rewrite <- Hg.
+      specialize (Hg 0%nat). rewrite <- app_assoc in Hg. cbn [app Nat.add] in Hg.
+      etransitivity; [|exact Hg].
       rewrite <- (OptTerm.len_snoc done c). destruct r; reflexivity.
     + rewrite Hd, <- En, Hg, <- app_assoc. reflexivity.
 Qed.
